@@ -6,6 +6,10 @@
 -/
 import PyroModel.Wire
 import PyroProofs.Wire
+import PyroProofs.WireStages
+import PyroModel.SockIO
+import PyroModel.Gen.C06
+import PyroProps.C17
 
 namespace Pyro.C06
 
@@ -112,6 +116,7 @@ theorem C06_roundtrip (cfg : Cfg) (z : Zlib) (m : Msg) (bs rest : Bytes) (accept
           (toBE 2 0 ++ toBE 2 magicNumber))))))))
       = packHeader m.type m.serId (headerFlags cfg m) m.seq (wirePayload cfg z m).length
         (annSize m.anns) (m.corr.getD zeroCorr) := rfl
+  unfold recvStage2
   rw [hpk, hparse]
   simp only
   have hfilter : (!accepted.isEmpty && !accepted.contains m.type) = false := by
@@ -121,6 +126,7 @@ theorem C06_roundtrip (cfg : Cfg) (z : Zlib) (m : Msg) (bs rest : Bytes) (accept
       rw [this]; simp
   rw [hfilter]
   simp only [Bool.false_eq_true, if_false]
+  unfold recvStage3
   have hbody : (abytes ++ wirePayload cfg z m).length = annSize m.anns + (wirePayload cfg z m).length := by
     simp [hal]
   rw [recvN_append _ _ _ hbody]
@@ -181,5 +187,236 @@ theorem C06_roundtrip (cfg : Cfg) (z : Zlib) (m : Msg) (bs rest : Bytes) (accept
           simp only [FLAGS_COMPRESSED]; rw [hasBit_clearBit2]
         rw [this]
         simp only [Bool.false_eq_true, if_false]
+
+/-! ### size limits -/
+
+theorem encodeAnns_not_tooLarge (anns : List Ann) : encodeAnns anns ≠ .error .tooLarge := by
+  induction anns with
+  | nil => simp [encodeAnns]
+  | cons a rest ih =>
+    obtain ⟨k, v⟩ := a
+    simp only [encodeAnns]
+    repeat' split
+    all_goals first | (intro h; cases h; done) | skip
+    all_goals simp_all
+
+/-- **C06_sender_limit.**  The sender refuses a message exactly when its wire size (payload as sent,
+    i.e. after compression, plus 8 bytes per annotation plus the annotation values) exceeds
+    MAX_MESSAGE_SIZE — for every MAX_MESSAGE_SIZE setting. -/
+theorem C06_sender_limit (cfg : Cfg) (z : Zlib) (m : Msg) :
+    encode cfg z m = .error .tooLarge ↔ (wirePayload cfg z m).length + annSize m.anns > cfg.maxSize := by
+  constructor
+  · intro h
+    unfold encode at h
+    simp only at h
+    by_cases h1 : (wirePayload cfg z m).length + annSize m.anns > cfg.maxSize
+    · exact h1
+    · rw [if_neg h1] at h
+      exfalso
+      by_cases h2 : (m.corr.getD zeroCorr).length ≠ 16
+      · rw [if_pos h2] at h; cases h
+      · rw [if_neg h2] at h
+        by_cases h3 : m.type ≥ 256 ∨ m.serId ≥ 256 ∨ headerFlags cfg m ≥ 65536 ∨ m.seq ≥ 65536 ∨
+            (wirePayload cfg z m).length ≥ 2 ^ 32 ∨ annSize m.anns ≥ 2 ^ 32
+        · rw [if_pos h3] at h; cases h
+        · rw [if_neg h3] at h
+          cases hr : encodeAnns m.anns with
+          | error e =>
+            rw [hr] at h
+            simp only [Except.error.injEq] at h
+            subst h
+            exact encodeAnns_not_tooLarge _ hr
+          | ok abytes => rw [hr] at h; cases h
+  · intro h
+    unfold encode
+    simp only
+    rw [if_pos h]
+
+theorem parseHeader_ok_size (cfg : Cfg) (h : Bytes) (H : Header) (hp : parseHeader cfg h = .ok H) :
+    H.dataSize + H.annSize ≤ cfg.maxSize := by
+  unfold parseHeader at hp
+  simp only at hp
+  split at hp
+  · cases hp
+  · split at hp
+    · cases hp
+    · rename_i hsz
+      simp only [Except.ok.injEq] at hp
+      subst hp
+      simp only
+      omega
+
+/-- **C06_receiver_limit.**  If `recv_stub` asks the connection for anything beyond the 40 header
+    bytes, the header it parsed declared `data + annotations ≤ MAX_MESSAGE_SIZE`: an oversized
+    message is refused before any of its body is read, for every stream and every limit. -/
+theorem C06_receiver_limit (cfg : Cfg) (z : Zlib) (accepted : List Nat) (stream : Bytes)
+    (h : (recvStub cfg z accepted stream).requested > headerSize) :
+    ∃ H, parseHeader cfg (stream.take headerSize) = .ok H ∧ H.dataSize + H.annSize ≤ cfg.maxSize ∧
+      (recvStub cfg z accepted stream).requested = headerSize + H.annSize + H.dataSize := by
+  unfold recvStub at h ⊢
+  generalize hr : recvN 6 stream = r at h ⊢
+  cases r with
+  | none => simp [headerSize] at h
+  | some p =>
+    obtain ⟨h6, s1⟩ := p
+    simp only at h ⊢
+    by_cases c1 : h6.take 4 ≠ tagPYRO
+    · rw [if_pos c1] at h; simp [headerSize] at h
+    · rw [if_neg c1] at h ⊢
+      by_cases c2 : h6.drop 4 ≠ toBE 2 protocolVersion
+      · rw [if_pos c2] at h; simp [headerSize] at h
+      · rw [if_neg c2] at h ⊢
+        generalize hr2 : recvN (headerSize - 6) s1 = r2 at h ⊢
+        cases r2 with
+        | none => simp at h
+        | some p2 =>
+          obtain ⟨h34, s2⟩ := p2
+          simp only at h ⊢
+          obtain ⟨e1, e2⟩ := recvN_some _ _ _ _ hr
+          obtain ⟨e3, e4⟩ := recvN_some _ _ _ _ hr2
+          obtain ⟨H, hp, hreq⟩ := stage2_requested cfg z accepted (h6 ++ h34) s2 h
+          have htake : stream.take headerSize = h6 ++ h34 := by
+            rw [e1, e3, ← List.append_assoc]
+            apply take_append_len
+            simp only [List.length_append, e2, e4, headerSize]
+          rw [htake]
+          exact ⟨H, hp, parseHeader_ok_size cfg _ H hp, hreq⟩
+
+/-! ### acceptance implies well-formedness -/
+
+/-- **C06_accepts_only_wellformed.**  Whatever byte string `recv_stub` accepts is a well-formed
+    message: a 40-byte header that parses, followed by an annotation area that is tiled *exactly* by
+    (4-byte id, 4-byte length, value) chunks, followed by exactly `data_size` bytes, followed by the
+    untouched rest; the decoded annotations are those chunks (later duplicate wins) and exactly the
+    message's bytes were requested.  Everything else raises. -/
+theorem C06_accepts_only_wellformed (cfg : Cfg) (z : Zlib) (accepted : List Nat) (stream : Bytes)
+    (d : Decoded) (n : Nat) (rest : Bytes)
+    (h : recvStub cfg z accepted stream = ⟨.ok d, n, rest⟩) :
+    ∃ (hdr : Bytes) (H : Header) (chunks : List (Bytes × Bytes)) (data : Bytes),
+      stream = hdr ++ (rawChunks chunks ++ (data ++ rest)) ∧
+      hdr.length = headerSize ∧ parseHeader cfg hdr = .ok H ∧
+      (rawChunks chunks).length = H.annSize ∧ data.length = H.dataSize ∧
+      n = headerSize + H.annSize + H.dataSize ∧
+      (accepted = [] ∨ H.type ∈ accepted) ∧
+      d.anns = chunks.foldl (fun a c => dictSet a (c.1.map UInt8.toNat) c.2) [] ∧
+      d.type = H.type ∧ d.serId = H.serId ∧ d.seq = H.seq ∧ d.corr = H.corr ∧
+      ((hasBit H.flags FLAGS_COMPRESSED = false ∧ d.data = data ∧ d.flags = H.flags) ∨
+       (hasBit H.flags FLAGS_COMPRESSED = true ∧ z.decompress data = some d.data ∧
+          d.flags = clearBit H.flags FLAGS_COMPRESSED)) := by
+  obtain ⟨h6, h34, s2, e1, l6, l34, hs2⟩ := recvStub_ok cfg z accepted stream d n rest h
+  obtain ⟨H, hp, hacc, hs3⟩ := stage2_ok cfg z accepted _ s2 d n rest hs2
+  obtain ⟨body, e2, lb, hadd, hn⟩ := stage3_ok z H s2 d n rest hs3
+  obtain ⟨_, chunks, hc1, hanns, ht, hs, hq, hc, hdata⟩ := addPayload_ok z H body d hadd
+  refine ⟨h6 ++ h34, H, chunks, body.drop H.annSize, ?_, ?_, hp, ?_, ?_, hn, hacc, hanns, ht, hs, hq, hc, hdata⟩
+  · rw [e1, e2, ← hc1, List.append_assoc]
+    congr 2
+    rw [← List.append_assoc, List.take_append_drop]
+  · simp only [List.length_append, l6, l34, headerSize]
+  · rw [← hc1]; simp only [List.length_take]; omega
+  · simp only [List.length_drop]; omega
+
+/-! ### fragmentation: the codec over the socket model of C17 -/
+
+/-- `SocketConnection.recv(n)` over the scripted socket of `PyroModel.SockIO`. -/
+def sockRecv (waitall : Bool) (n : Nat) (st : Bytes × List SockIO.Ev) : Option (Bytes × (Bytes × List SockIO.Ev)) :=
+  match SockIO.receive waitall n st.1 st.2 with
+  | (.ok d, rest, sc) => some (d, (rest, sc))
+  | _ => none
+
+theorem sockRecv_exact (waitall : Bool) (n : Nat) (st : Bytes × List SockIO.Ev) (d : Bytes)
+    (st' : Bytes × List SockIO.Ev) (h : sockRecv waitall n st = some (d, st')) :
+    recvN n st.1 = some (d, st'.1) := by
+  unfold sockRecv at h
+  split at h
+  · rename_i d' rest sc heq
+    simp only [Option.some.injEq, Prod.mk.injEq] at h
+    obtain ⟨rfl, rfl⟩ := h
+    obtain ⟨h1, h2, h3⟩ := Pyro.C17.C17_recv_exact waitall n st.1 st.2 d' rest sc heq
+    unfold recvN
+    have : n ≤ st.1.length := by
+      rw [h1] at h3; simp only [List.length_take] at h3; omega
+    rw [if_pos this, ← h1, ← h2]
+  · cases h
+
+/-- Generic: a connection whose `recv` returns exactly the next bytes of its unread stream makes
+    `recv_stub` behave exactly as on the unfragmented stream. -/
+theorem recvStubG_eq {σ : Type} (recv : Nat → σ → Option (Bytes × σ)) (unread : σ → Bytes)
+    (hrecv : ∀ n s d s', recv n s = some (d, s') → recvN n (unread s) = some (d, unread s'))
+    (cfg : Cfg) (z : Zlib) (accepted : List Nat) (s : σ) (r : StubResult)
+    (h : recvStubG recv unread cfg z accepted s = some r) :
+    recvStub cfg z accepted (unread s) = r := by
+  unfold recvStubG at h
+  unfold recvStub
+  generalize h1 : recv 6 s = r1 at h
+  cases r1 with
+  | none => simp at h
+  | some p1 =>
+    obtain ⟨h6, s1⟩ := p1
+    rw [hrecv 6 s h6 s1 h1]
+    simp only at h ⊢
+    by_cases c1 : h6.take 4 ≠ tagPYRO
+    · rw [if_pos c1] at h ⊢; simpa using h
+    · rw [if_neg c1] at h ⊢
+      by_cases c2 : h6.drop 4 ≠ toBE 2 protocolVersion
+      · rw [if_pos c2] at h ⊢; simpa using h
+      · rw [if_neg c2] at h ⊢
+        generalize h2 : recv (headerSize - 6) s1 = r2 at h
+        cases r2 with
+        | none => simp at h
+        | some p2 =>
+          obtain ⟨h34, s2⟩ := p2
+          rw [hrecv _ s1 h34 s2 h2]
+          simp only at h ⊢
+          unfold recvStage2
+          generalize hp : parseHeader cfg (h6 ++ h34) = ph at h ⊢
+          cases ph with
+          | error e => simpa using h
+          | ok H =>
+            simp only at h ⊢
+            by_cases c3 : (!accepted.isEmpty && !accepted.contains H.type) = true
+            · rw [if_pos c3] at h ⊢; simpa using h
+            · rw [if_neg c3] at h ⊢
+              unfold recvStage3
+              generalize h3 : recv (H.annSize + H.dataSize) s2 = r3 at h
+              cases r3 with
+              | none => simp at h
+              | some p3 =>
+                obtain ⟨body, s3⟩ := p3
+                rw [hrecv _ s2 body s3 h3]
+                simpa using h
+
+/-- **C06_fragmentation.**  Reading a message through the socket layer — any script of partial
+    deliveries and retryable errors, with or without MSG_WAITALL — gives exactly the result of
+    reading it from the unfragmented stream (same message or same error, same unread rest),
+    whenever no socket read itself failed. -/
+theorem C06_fragmentation (waitall : Bool) (cfg : Cfg) (z : Zlib) (accepted : List Nat)
+    (stream : Bytes) (script : List SockIO.Ev) (r : StubResult)
+    (h : recvStubG (sockRecv waitall) (fun st => st.1) cfg z accepted (stream, script) = some r) :
+    recvStub cfg z accepted stream = r :=
+  recvStubG_eq (sockRecv waitall) (fun st => st.1)
+    (fun n s d s' hh => sockRecv_exact waitall n s d s' hh) cfg z accepted (stream, script) r h
+
+/-! ### obligations about facts extracted from the current source (PyroModel/Gen/C06.lean) -/
+
+/-- The constants and layout the model is written against are the ones in the source now. -/
+theorem C06_gen_facts :
+    Pyro.Gen.C06.headerFormat = "!4sHBBHHII16sHH" ∧
+    Pyro.Gen.C06.headerSize = headerSize ∧
+    Pyro.Gen.C06.protocolVersion = protocolVersion ∧
+    Pyro.Gen.C06.magicNumber = magicNumber ∧
+    Pyro.Gen.C06.flagsCompressed = FLAGS_COMPRESSED ∧
+    Pyro.Gen.C06.flagsCorrId = FLAGS_CORR_ID ∧
+    Pyro.Gen.C06.lenComparisons = ["Gt 100", "NotEq 4"] ∧
+    (packHeader 0 0 0 0 0 0 zeroCorr).length = Pyro.Gen.C06.headerSize := by decide
+
+/-! ### non-vacuity -/
+
+private def zId : Zlib := { compress := fun p => 0x78 :: p, decompress := fun d => d.tail? }
+example : zId.Lawful := fun _ => rfl
+private def m0 : Msg := { type := 4, serId := 2, flags := 2 + 8, seq := 65535, payload := [1, 2, 3],
+                          anns := [([72, 77, 65, 67], [9, 9]), ([65, 66, 67, 68], [])], corr := some zeroCorr }
+example : (encode ⟨false, 1000⟩ zId m0).toOption.isSome = true ∧ (keysOf m0.anns).Nodup := by decide
+example : (recvStub ⟨false, 1000⟩ zId [4] (((encode ⟨false, 1000⟩ zId m0).toOption.getD []) ++ [7, 7])).out.toOption
+    = some (decodedOf m0) := by decide
 
 end Pyro.C06
